@@ -227,7 +227,7 @@ def _apply_unit(repo: str, header: str, body_lines: List[str], tpl_name: str) ->
                 if not m:
                     raise ExtractError("bad for2while in %s/%s: %s" % (tpl_name, uid, d))
                 kvs = _parse_kv(m.group(2))
-                sections.append(("for2while?" if d.startswith("for2while?") else "for2while", m.group(1), [kvs.get("seq", "$iter"), kvs.get("elem", "&$s[$i]")]))
+                sections.append(("for2while?" if d.startswith("for2while?") else "for2while", m.group(1), [kvs.get("seq", "$iter"), kvs.get("elem", "&$s[$i]"), kvs.get("iter", "")]))
             elif d.startswith("ret:"):
                 sections.append(("ret", d[4:].strip(), []))
             elif d.startswith("tail:"):
@@ -372,8 +372,12 @@ def _apply_unit(repo: str, header: str, body_lines: List[str], tpl_name: str) ->
     for kind, arg, lines in sections:
         if kind in ("for2while", "for2while?"):
             try:
-                body = rt.for_to_while(body, int(arg), lines[0], lines[1])
-                info.rewrites.append(("for-to-while loop %s: seq=%s elem=%s" % (arg, lines[0], lines[1]), 1))
+                seen_it: list = []
+                if not lines[2] and "$iter" not in lines[0] and os.environ.get("VERIF_STRICT_RW"):
+                    raise ExtractError("%s: for2while %s replaces the loop's iterable without naming it (iter=`...`)" % (uid, arg))
+                body = rt.for_to_while(body, int(arg), lines[0], lines[1], lines[2] or None, seen_it)
+                F2W_LOG.append((tpl_name, uid, int(arg), seen_it[0] if seen_it else None, lines[2]))
+                info.rewrites.append(("for-to-while loop %s: seq=%s elem=%s%s" % (arg, lines[0], lines[1], (" (the real loop iterates over `%s`: checked)" % lines[2]) if lines[2] else ""), 1))
             except ExtractError:
                 if kind == "for2while":
                     raise
@@ -526,6 +530,9 @@ def _requires_canary(uid: str, sig: str, spec: str) -> str:
         return ""
     csig = sig[:m.start(1)] + "canary_req_" + re.sub(r"[^A-Za-z0-9_]", "_", uid) + sig[m.end(1):]
     return "\n" + csig + "\n    " + req + ",\n{ assert(false); vstd::pervasive::unreached() }\n"
+
+
+F2W_LOG: list = []
 
 
 def _postfix_start(toks, q: int) -> int:
